@@ -101,7 +101,8 @@ Definition py_int_gen (ws : N -> bool) (s : str) : option Z :=
   match body with
   | [] => None
   | c :: _ =>
-      if is_digit c then
+      if N.ltb 4300 (N.of_nat (length (filter is_digit body))) then None   (* CPython's int_max_str_digits *)
+      else if is_digit c then
         match digits_us body 0 false with
         | Some n => Some (if neg then Z.opp (Z.of_N n) else Z.of_N n)
         | None => None
